@@ -10,6 +10,12 @@ NOTE = ("Trusted: Lean 4.33 kernel; axioms propext/Classical.choice/Quot.sound o
         "scenarios, so the proof speaks about the code only as far as the correspondence was exercised; "
         "user callbacks are a universally quantified parameter of the model.")
 
+SRC_TIE = {
+    "C01": "_trigger (both engines)", "C02": "_activate (both engines)", "C03": "processing_loop (both engines)",
+    "C04": "_activate and processing_loop (both engines)", "C05": "_activate, _trigger and processing_loop of both engines, and `async = sync with awaits`",
+    "C11": "_trigger (the __initial__ branch) and _activate on the initial pseudo-transition", "C14": "_activate (result accumulation and the unwrap rule)",
+}
+
 CLAIMS = {
   "C03": dict(
     technique="Lean 4 proof (invariant over the drain loop, lifted through the engine by a relational calculus) + model/implementation correspondence",
@@ -111,7 +117,14 @@ def main():
     for p in props:
         if p not in CLAIMS:
             continue
-        c = CLAIMS[p]
+        c = dict(CLAIMS[p])
+        if p in SRC_TIE:
+            c["technique"] += (" + source tie (translator harness/srcgen.py: the statement scripts of " + SRC_TIE[p] +
+                               " are regenerated from /repo on every run and decided equal, by the Lean kernel, to the scripts whose "
+                               "interpretation is proved to be the engine model)")
+            c["text"] += (" Source tie: SMV/Src/Tie.lean proves that the scripts derived from engines/sync.py and engines/async_.py (" +
+                          SRC_TIE[p] + "), interpreted statement by statement, are exactly the model functions these theorems are about; "
+                          "every run re-derives the scripts from the tree under test.")
         checks.append(dict(
             property_id=p, quick_cmd=f"./check {p} --tier quick", thorough_cmd=f"./check {p} --tier thorough",
             evidence_file=f"evidence/{p}.json", replay_cmd_template=f"./check {p} --replay {{path}}",
@@ -123,7 +136,7 @@ def main():
     man = dict(
         version=1,
         setup_cmd="cd lean && lake build SMV SMV.Props.Examples " + " ".join(f"SMV.Props.{p}" for p in props) +
-                  " driver drv_bind drv_expr drv_validate drv_protocol drv_diagram drv_decl drv_store",
+                  " SMV.Src.Tie driver drv_bind drv_expr drv_validate drv_protocol drv_diagram drv_decl drv_store",
         hooks=dict(guard="PYSM_VERIF", enable="no source hooks are used: observation is through the public API, sys.settrace and objects supplied by the harness",
                    baseline_off_cmd=BASE.get("cmd", "cd /repo && /venv/bin/python -m pytest -q"), source_commits=[], add_only=True),
         engines=[dict(name="lean+harness", path="lean/ + harness/", serves_properties=[c["property_id"] for c in checks],
